@@ -1,6 +1,12 @@
 /- line-protocol driver for C12: `drv_c12 <sub-command>` reads operations on stdin, prints one canonical line per operation.
    Core Lean only (nothing imported here may import Mathlib, or the executable will not link). -/
+import ChibiVerif.Driver.C12AuditCmd
 
 def main (args : List String) : IO UInt32 := do
-  IO.eprintln s!"drv_c12: no sub-commands yet (args {args})"
-  return 2
+  match args with
+  | "sites" :: _ => ChibiVerif.Driver.C12.sitesMain
+  | "verdict" :: _ => ChibiVerif.Driver.C12.verdictMain
+  | "unaccounted" :: _ => ChibiVerif.Driver.C12.unaccountedMain
+  | _ =>
+    IO.eprintln "usage: drv_c12 sites|verdict|unaccounted"
+    return 2
